@@ -28,7 +28,7 @@ def prop(pid, rules, explanation, minimum=None, assumptions=None):
 
 prop('C01',
      [T.rule_lookup_shape, T.rule_chain, T.rule_total_ber, T.rule_pair_ber, T.rule_fragment_tag_ber, A.rule_a7_unit,
-      A.rule_a8_pairing, W.rule_encode_header, W.rule_decode_header, A.rule_c04_default, E.rule_option_latch, A.rule_a6_spec, Z.rule_encode_tag_arms, Z.rule_bits_prepend, Z.rule_option_scope, A.rule_a6_optdef, Z.rule_encode_contents, Z.rule_real_format, Z.rule_integer_octets, A.rule_c13, R.rule_real_base, R.rule_real_exponent, R3.rule_sized_length, R3.rule_segment_spec, R.rule_real_base10_exact],
+      A.rule_a8_pairing, W.rule_encode_header, W.rule_decode_header, A.rule_c04_default, E.rule_option_latch, A.rule_a6_spec, Z.rule_encode_tag_arms, Z.rule_bits_prepend, Z.rule_option_scope, A.rule_a6_optdef, Z.rule_encode_contents, Z.rule_real_format, Z.rule_integer_octets, A.rule_c13, R.rule_real_base, R.rule_real_exponent, R3.rule_sized_length, R3.rule_segment_spec, R.rule_real_base10_exact, Z.rule_cache_key],
      'Static necessary conditions of the BER round trip: every type class has an encoder by type and a decoder by type; '
      'writer and reader of each type belong to the same codec family; string segments are tagged by the writer as the '
      'reader demands and as X.690 8.23.6 says; chunks are slices of the measured octets; end-of-octets is appended iff '
@@ -81,7 +81,7 @@ prop('C06',
      {'A3.hier': 7, 'A3.trunc': 3, 'A2.oneshot': 3, 'A2.retry': 4, 'A2.reads': 5, 'A3.mask': 1, 'A2.probe': 1, 'A2.eosloop': 1, 'A2.ended': 1})
 
 prop('C07',
-     [A.rule_c07_len, A.rule_c07_eoo, G.rule_oneshot, G.rule_drop, A.rule_a8_pairing, G.rule_last, G.rule_iter_total, Z.rule_cache_key, Z.rule_cache_reset, Z.rule_position_loops, G.rule_retry, R3.rule_method_identity, R3.rule_eoo_identity],
+     [A.rule_c07_len, A.rule_c07_eoo, G.rule_oneshot, G.rule_drop, A.rule_a8_pairing, G.rule_last, G.rule_iter_total, Z.rule_cache_key, Z.rule_cache_reset, Z.rule_position_loops, G.rule_retry, R3.rule_method_identity, R3.rule_eoo_identity, W.rule_encode_header],
      'Exactly one encoding is consumed: consumed-vs-announced length check on every path before an item completes; the '
      'end-of-octets probe un-reads exactly what it read; remainder read from the same stream; no read result dropped; '
      'the encoder appends end-of-octets iff it wrote an indefinite header.  Numeric correctness of lengths is not decided.',
@@ -89,7 +89,7 @@ prop('C07',
 
 prop('C08',
      [X.rule_raise, X.rule_tagmap_guard, X.rule_partial, X.rule_schema_index, X.rule_nonevalue, X.rule_progress,
-      W.rule_content_guards, X.rule_union_attr, G.rule_iter_total, Z.rule_choice_result, Z.rule_read_size, Z.rule_bits_padding, Z.rule_real_nan, R.rule_probe_order, R.rule_real_base10_exact],
+      W.rule_content_guards, X.rule_union_attr, G.rule_iter_total, Z.rule_choice_result, Z.rule_read_size, Z.rule_bits_padding, Z.rule_real_nan, R.rule_probe_order, R.rule_real_base10_exact, R3.rule_container_cleared, X.rule_trunc],
      'Malformed input fails cleanly: every explicit raise in the decode scope is a library error (or a recorded '
      'Python-protocol raise), partial operations on wire octets are guarded, no placeholder / raw octets reach a result '
      'yield, every loop makes progress and the item decoder state graph is acyclic, the anchored format checks refuse '
@@ -104,7 +104,7 @@ prop('C09',
      'any position in both length forms (sibling agreement of the record loops).  Length arithmetic is not decided.',
      {'A1.lax': 35, 'A7.tag': 30, 'A7.nested': 4, 'A6.spec': 3, 'W.dec': 10, 'W.sized': 6, 'A5.methid': 2, 'A1.alias': 12, 'A8.eooid': 8})
 
-prop('C10', [A.rule_c10, A.rule_a6_spec, X.rule_nonevalue, A.rule_c14, Z.rule_choice_result, A.rule_a6_optdef, Z.rule_constraint_denotation, Z.rule_bits_padding],
+prop('C10', [A.rule_c10, A.rule_a6_spec, X.rule_nonevalue, A.rule_c14, Z.rule_choice_result, A.rule_a6_optdef, Z.rule_constraint_denotation, Z.rule_bits_padding, R3.rule_container_cleared],
      'Spec-guided exits of the constructed decoders: required components present; constraints (isInconsistent) checked '
      'before the value is returned; result is an ASN.1 object built from the guiding type.  The re-encode fixpoint is not decided.',
      {'C10.req': 2, 'C10.cons': 6, 'A13.value': 20})
@@ -143,18 +143,18 @@ prop('C15', [T.rule_lookup_shape, T.rule_chain, T.rule_strict, W.rule_decode_hea
      'refusals dominate value decoding; every nested element goes through the same item decoder (slot binding).',
      {'A1.strict': 40, 'A1.chain': 12, 'A1.alias': 12})
 
-prop('C16', [T.rule_total_bytag, X.rule_nonevalue, T.rule_pair_ber, Z.rule_schemaless_tags, Z.rule_cache_key, R.rule_prototypes, R3.rule_encoder_by_type, R3.rule_eoo_identity],
+prop('C16', [T.rule_total_bytag, X.rule_nonevalue, T.rule_pair_ber, Z.rule_schemaless_tags, Z.rule_cache_key, R.rule_prototypes, R3.rule_encoder_by_type, R3.rule_eoo_identity, R3.rule_container_cleared, R3.rule_scalar_result_tags],
      'Schemaless decoding: by-tag table total over universal types and paired with the right codec family; no '
      'None/placeholder/raw octets reach a result yield.  Leaf equality and re-encode identity are not decided.',
      {'A1.total': 80, 'A13.value': 20, 'A1.proto': 60, 'A1.enctype': 60, 'A8.eooid': 8})
 
-prop('C17', [T.rule_total_native, A.rule_c17_contra, A.rule_a6_record_arms, A.rule_c04_default, Z.rule_native_record, M.rule_a9_dynamic, R.rule_omissions, R.rule_as_binary],
+prop('C17', [T.rule_total_native, A.rule_c17_contra, A.rule_a6_record_arms, A.rule_c04_default, Z.rule_native_record, M.rule_a9_dynamic, R.rule_omissions, R.rule_as_binary, R3.rule_native_scalar_value],
      'Native tables total over all types; in the python-value arms the OPTIONAL-absent skip is satisfiable and precedes '
      'the raising lookup; value arm and python arm take the same OPTIONAL/DEFAULT/open-type actions.  Native round trip '
      'of values is not decided.',
      {'A1.total': 55, 'A4.contra': 4, 'A6.arms': 2, 'A6.omit': 8, 'W.binstr': 2})
 
-prop('C18', [A.rule_a8_dec, X.rule_nonevalue, T.rule_pair_ber, Z.rule_any_capture_yields, Z.rule_option_scope, A.rule_a6_open, R.rule_opentype_map_ref, R3.rule_opentype_truthy, R3.rule_open_skips],
+prop('C18', [A.rule_a8_dec, X.rule_nonevalue, T.rule_pair_ber, Z.rule_any_capture_yields, Z.rule_option_scope, A.rule_a6_open, R.rule_opentype_map_ref, R3.rule_opentype_truthy, R3.rule_open_skips, R3.rule_open_types_flag],
      'Raw capture of an indefinite-length TLV is complete (header re-read <=> end-of-octets appended); raw octets are '
      'handed back only to a collecting caller; ANY resolves to the ANY codec in every by-type table.  Equality of the '
      'resolved value is not decided.',
